@@ -482,12 +482,14 @@ def drive_plan(tier, seed):
         base = [("small", "const", "owned", 2500), ("medium", "onebit", "borrowed", 2500),
                 ("medium", "default", "owned", 2500), ("wide", "const", "borrowed", 2000),
                 ("wide", "identity", "owned", 2000), ("churn", "const", "owned", 2000),
-                ("churn", "sip", "borrowed", 2000), ("large", "default", "owned", 1200)]
+                ("churn", "sip", "borrowed", 2000), ("large", "default", "owned", 1200),
+                ("fifo", "identity", "owned", 2500), ("fifo", "const", "borrowed", 1500)]
     else:
         base = []
         for i, h in enumerate(["const", "onebit", "identity", "sip", "default", "siprand"]):
-            for j, prof in enumerate(["small", "medium", "wide", "churn", "large"]):
-                steps = {"small": 6000, "medium": 6000, "wide": 4000, "churn": 4000, "large": 2500}[prof]
+            for j, prof in enumerate(["small", "medium", "wide", "churn", "large", "fifo"]):
+                steps = {"small": 6000, "medium": 6000, "wide": 4000, "churn": 4000, "large": 2500,
+                         "fifo": 6000}[prof]
                 base.append((prof, h, "owned" if (i + j) % 2 == 0 else "borrowed", steps))
     for n, (prof, h, k, steps) in enumerate(base):
         plan.append({"profile": prof, "hasher": h, "keyform": k, "steps": steps,
@@ -535,12 +537,12 @@ def drop_partial_last_line(path):
 
 def limits():
     """preexec_fn for processes that execute the code under test: a corrupted cache must
-    not be able to eat the machine (address space 6 GiB, cpu time 5 min)"""
+    not be able to eat the machine (address space 6 GiB, cpu time 150 s)"""
     import resource
 
     def f():
         resource.setrlimit(resource.RLIMIT_AS, (6 << 30, 6 << 30))
-        resource.setrlimit(resource.RLIMIT_CPU, (300, 300))
+        resource.setrlimit(resource.RLIMIT_CPU, (150, 150))
     return f
 
 
@@ -567,7 +569,7 @@ def stage_drive(tier, name="drive", plan=None):
                        "--profile", job["profile"], "--hasher", job["hasher"], "--keyform", job["keyform"],
                        "--events", trace, "--script-out", script,
                        "--crash-rate", str(job["crash_rate"]), "--forget-rate", str(job["forget_rate"]),
-                       "--segment", str(job.get("segment", 500))]
+                       "--segment", str(job.get("segment", 100000 if job["profile"] == "fifo" else 500))]
                 p = subprocess.run(cmd, stdout=subprocess.PIPE, stderr=subprocess.PIPE, text=True, timeout=1800,
                                    preexec_fn=limits())
                 res = {"job": job, "trace": trace, "script": script, "driver_rc": p.returncode}
